@@ -94,7 +94,9 @@ func (o ObjImportable) Import(string) (any, error) { return o.New(), nil }
 func AddObjMods(mm *ugo.ModuleMap) {
 	mm.Add("objarr", ObjImportable{func() ugo.Object { return ugo.Array{ugo.Int(1), ugo.Int(2), ugo.Int(3)} }})
 	mm.Add("objbytes", ObjImportable{func() ugo.Object { return ugo.Bytes{1, 2, 3} }})
-	mm.Add("objsync", ObjImportable{func() ugo.Object { return &ugo.SyncMap{Value: ugo.Map{"k": ugo.Int(0)}} }})
+	mm.Add("objsync", ObjImportable{func() ugo.Object {
+		return &ugo.SyncMap{Value: ugo.Map{"k": ugo.Int(0), "nest": ugo.Array{ugo.Int(1), ugo.Map{"x": ugo.Int(0)}}, "by": ugo.Bytes{5}}}
+	}})
 	mm.AddSourceModule("objmods", []byte(`return {arr: import("objarr"), by: import("objbytes"), sm: import("objsync")}`))
 }
 
@@ -716,4 +718,53 @@ return out
 		}
 	}
 	return nil
+}
+
+// NilGlobalsProbe: a run that is given no globals map gets an EMPTY one of its own: what a script
+// assigns to a `global` variable is neither seen by the next run on the same VM (after SetBytecode or
+// Clear) nor by another VM.
+func NilGlobalsProbe() (problem string) {
+	bc, err := ugo.Compile([]byte("global g\nold := g\ng = (g || 0) + 1\nreturn [old, g]"), ugo.CompilerOptions{})
+	if err != nil {
+		return "compile: " + err.Error()
+	}
+	want := "[undefined, 1]"
+	vm := ugo.NewVM(bc)
+	for i, reset := range []string{"new", "SetBytecode", "Clear+SetBytecode", "SetBytecode"} {
+		switch reset {
+		case "SetBytecode":
+			vm.SetBytecode(bc)
+		case "Clear+SetBytecode":
+			vm.Clear().SetBytecode(bc)
+		}
+		ret, err := vm.Run(nil)
+		if err != nil || ret.String() != want {
+			return fmt.Sprintf("run #%d on one VM (%s) with nil globals returns %v %v, want %s", i+1, reset, ret, err, want)
+		}
+	}
+	var wg sync.WaitGroup
+	bad := make(chan string, 16)
+	for i := 0; i < 8; i++ {
+		wg.Add(1)
+		go func() {
+			defer wg.Done()
+			for k := 0; k < 20; k++ {
+				ret, err := ugo.NewVM(bc).Run(nil)
+				if err != nil || ret.String() != want {
+					select {
+					case bad <- fmt.Sprintf("a new VM run with nil globals returns %v %v, want %s", ret, err, want):
+					default:
+					}
+					return
+				}
+			}
+		}()
+	}
+	wg.Wait()
+	select {
+	case b := <-bad:
+		return b
+	default:
+	}
+	return ""
 }
